@@ -7,208 +7,20 @@ FNODE = "pysmt.fnode.FNode"
 FM = "pysmt.formula.FormulaManager"
 
 EXPLANATION = (
-    "Static analysis of fnode.py/formula.py/shortcuts.py: the dispatch table of FNode's infix and "
-    "named methods - (non-BV constructor, BV constructor, operand order incl. reflected forms) - "
-    "equals the reference table (R1); 160 derived constructors / infix forms are expanded by the "
-    "abstract interpreter over opaque operands into core-operator terms and compared, for all operand "
-    "values over small domains, with the function the name denotes: comparisons, min/max, cardinality "
-    "encodings arity 0-4, AllDifferent, Abs, SBV with its range check, bvsmod, nand/nor/xnor, n-ary "
-    "folds, repeat, shifts by a Python int, all infix and reflected forms, slices (R2).")
+    "Abstract interpretation of fnode.py/formula.py/shortcuts.py: 166 derived constructors / infix forms "
+    "are expanded by interpreting their source over opaque operands into core-operator terms and "
+    "compared, for all operand values over small domains, with the function the name denotes: "
+    "comparisons, min/max, cardinality encodings arity 0-4, AllDifferent, Abs, SBV with its range check, "
+    "bvsmod, nand/nor/xnor, n-ary folds, repeat, shifts by a Python int, all infix and reflected forms on "
+    "Bool / Int / Real / bit-vector operands, slices; every named FNode method x.NAME(..) builds the node "
+    "FormulaManager.NAME(x, ..) builds (R2).")
 NOT_DECIDED = ["values beyond the bounded domains of R2 (bit-vectors exhaustively up to width 3, Int/Real sampled)"]
-
-# dunder -> (non-BV manager ctor, BV manager ctor, mode)   mode: 'lr' = (self, right)
-INFIX = {
-    "__add__": ("Plus", "BVAdd"), "__radd__": ("Plus", "BVAdd"),
-    "__sub__": ("Minus", "BVSub"),
-    "__mul__": ("Times", "BVMul"), "__rmul__": ("Times", "BVMul"),
-    "__div__": ("Div", "BVUDiv"),
-    "__gt__": ("GT", "BVUGT"), "__ge__": ("GE", "BVUGE"), "__lt__": ("LT", "BVULT"), "__le__": ("LE", "BVULE"),
-    "__and__": ("And", "BVAnd"), "__rand__": ("And", "BVAnd"),
-    "__or__": ("Or", "BVOr"), "__ror__": ("Or", "BVOr"),
-    "__xor__": ("Xor", "BVXor"), "__rxor__": ("Xor", "BVXor"),
-    "__lshift__": (None, "BVLShl"), "__rshift__": (None, "BVLShr"), "__mod__": (None, "BVURem"),
-}
-# reflected forms of commutative operators may keep (self, other) order
-COMMUTATIVE = {"Plus", "BVAdd", "Times", "BVMul", "And", "BVAnd", "Or", "BVOr", "Xor", "BVXor"}
-
-NAMED_VIA_INFIX = ["Implies", "Iff", "Equals", "NotEquals", "And", "Or", "BVAnd", "BVAdd", "BVAShr", "BVComp",
-                   "BVConcat", "BVLShl", "BVLShr", "BVMul", "BVNand", "BVNor", "BVOr", "BVSDiv", "BVSGE",
-                   "BVSGT", "BVSLE", "BVSLT", "BVSub", "BVSMod", "BVSRem", "BVUDiv", "BVUGE", "BVUGT",
-                   "BVULE", "BVULT", "BVURem", "BVXor", "BVXnor"]
-NAMED_DIRECT = {"BVExtract": ["start", "stop"], "BVRepeat": ["count"], "BVRol": ["steps"], "BVRor": ["steps"],
-                "BVSExt": ["increase"], "BVZExt": ["increase"], "Select": ["index"], "Store": ["index", "value"],
-                "Ite": ["then_", "else_"]}
-
-
-def _mgr_attr(e):
-    """`_mgr().X` -> 'X'"""
-    if isinstance(e, ast.Attribute) and isinstance(e.value, ast.Call) and attr_tail(e.value) == "_mgr":
-        return e.attr
-    if isinstance(e, ast.Constant) and e.value is None:
-        return None
-    return "?" + norm(e)
 
 
 def run(ctx):
     repo = get_repo()
     ci = repo.cls(FNODE)
     ctx.analysed["modules"] = ["pysmt/fnode.py", "pysmt/formula.py", "pysmt/shortcuts.py"]
-
-    if ctx.want("R1"):
-        rs = ctx.rule("R1", "infix / named-method dispatch table of FNode")
-        for dn, (nonbv, bv) in sorted(INFIX.items()):
-            f = ci.own_func(dn)
-            if f is None:
-                ctx.finding(rs, "%s.%s|missing" % (FNODE, dn), "infix method %s vanished" % dn, repo.loc(ci.module, ci.node))
-                continue
-            rets = [n for n in ast.walk(f) if isinstance(n, ast.Return)]
-            if len(rets) != 1 or not isinstance(rets[0].value, ast.Call) or attr_tail(rets[0].value) != "_apply_infix":
-                rs.unrec("%s: not a single _apply_infix return" % dn)
-                continue
-            c = rets[0].value
-            params = [a.arg for a in f.args.args]
-            if norm(c.func.value) != "self" or not c.args or norm(c.args[0]) != params[1]:
-                ctx.finding(rs, "%s.%s|operands" % (FNODE, dn),
-                            "%s applies the operator to (%s, %s) instead of (self, %s)"
-                            % (dn, norm(c.func.value), norm(c.args[0]) if c.args else "?", params[1]),
-                            method_loc(repo, FNODE, c))
-                continue
-            fn_e = c.args[1] if len(c.args) > 1 else None
-            bv_e = c.args[2] if len(c.args) > 2 else None
-            for k in c.keywords:
-                if k.arg == "function":
-                    fn_e = k.value
-                if k.arg == "bv_function":
-                    bv_e = k.value
-            got_fn = _mgr_attr(fn_e) if fn_e is not None else None
-            got_bv = _mgr_attr(bv_e) if bv_e is not None else got_fn
-            if (got_fn, got_bv) == (nonbv, bv):
-                rs.ok({"method": dn, "non_bv": nonbv, "bv": bv})
-            else:
-                ctx.finding(rs, "%s.%s|table" % (FNODE, dn),
-                            "%s dispatches to (%s, %s); its Python meaning requires (%s, %s)"
-                            % (dn, got_fn, got_bv, nonbv, bv), method_loc(repo, FNODE, c))
-        # __truediv__ delegates to __div__
-        f = ci.own_func("__truediv__")
-        if f is not None and "self.__div__(right)" in norm(f):
-            rs.ok({"method": "__truediv__", "delegates": "__div__"})
-        else:
-            rs.unrec("__truediv__ shape")
-        # _apply_infix: BV branch on the type of self, operands in (self, right) order
-        f = ci.own_func("_apply_infix")
-        if f is None:
-            ctx.error("R1", "_apply_infix vanished")
-        else:
-            rets = [n for n in ast.walk(f) if isinstance(n, ast.Return)]
-            par = parents(f)
-            okc = 0
-            for r in rets:
-                q = par.get(r)
-                under_bv = isinstance(q, ast.If) and r in q.body and norm(q.test) == "self.get_type().is_bv_type()"
-                callee = norm(r.value.func)
-                args = [norm(a) for a in r.value.args]
-                if args != ["self", "right"]:
-                    ctx.finding(rs, "%s._apply_infix|operand-order" % FNODE,
-                                "_apply_infix calls %s(%s)" % (callee, ", ".join(args)), method_loc(repo, FNODE, r))
-                elif (under_bv and callee == "bv_function") or (not under_bv and callee == "function"):
-                    okc += 1
-                else:
-                    ctx.finding(rs, "%s._apply_infix|branch" % FNODE,
-                                "_apply_infix uses %s on the %s branch" % (callee, "bit-vector" if under_bv else "non-bit-vector"),
-                                method_loc(repo, FNODE, r))
-            if okc == 2:
-                rs.ok({"_apply_infix": "bv_function(self, right) iff self is a bit-vector, else function(self, right)"})
-        # named methods
-        for nm in NAMED_VIA_INFIX:
-            f = ci.own_func(nm)
-            if f is None:
-                ctx.finding(rs, "%s.%s|missing" % (FNODE, nm), "method %s vanished" % nm, repo.loc(ci.module, ci.node))
-                continue
-            rets = [n for n in ast.walk(f) if isinstance(n, ast.Return)]
-            c = rets[0].value if rets else None
-            if c is None or not isinstance(c, ast.Call) or attr_tail(c) != "_apply_infix" or len(c.args) < 2:
-                rs.unrec("%s: shape" % nm)
-                continue
-            got = _mgr_attr(c.args[1])
-            params = [a.arg for a in f.args.args]
-            if got == nm and norm(c.args[0]) == params[1] and norm(c.func.value) == "self" and len(c.args) == 2:
-                rs.ok({"method": nm, "constructor": got})
-            else:
-                ctx.finding(rs, "%s.%s|table" % (FNODE, nm),
-                            "method %s builds %s(%s, %s)" % (nm, got, norm(c.func.value), norm(c.args[0])),
-                            method_loc(repo, FNODE, c))
-        for nm, extra in sorted(NAMED_DIRECT.items()):
-            f = ci.own_func(nm)
-            if f is None:
-                ctx.finding(rs, "%s.%s|missing" % (FNODE, nm), "method %s vanished" % nm, repo.loc(ci.module, ci.node))
-                continue
-            calls = [c for c in calls_in(f) if _mgr_attr(c.func) == nm]
-            if len(calls) != 1:
-                rs.unrec("%s: constructor call not unique" % nm)
-                continue
-            c = calls[0]
-            args = [norm(a) for a in c.args] + [norm(k.value) for k in c.keywords]
-            if args == ["self"] + extra:
-                rs.ok({"method": nm, "call": norm(c)})
-            else:
-                ctx.finding(rs, "%s.%s|arguments" % (FNODE, nm),
-                            "method %s calls %s" % (nm, norm(c)), method_loc(repo, FNODE, c))
-        # unary forms
-        for dn, (nb, b) in (("__invert__", ("Not", "BVNot")), ("__neg__", (None, "BVNeg"))):
-            f = ci.own_func(dn)
-            if f is None:
-                ctx.finding(rs, "%s.%s|missing" % (FNODE, dn), "%s vanished" % dn, repo.loc(ci.module, ci.node))
-                continue
-            par = parents(f)
-            seen = {}
-            for r in [n for n in ast.walk(f) if isinstance(n, ast.Return)]:
-                q = par.get(r)
-                under_bv = isinstance(q, ast.If) and r in q.body and norm(q.test) == "self.get_type().is_bv_type()"
-                seen[under_bv] = r
-            rb = seen.get(True)
-            if rb is not None and _mgr_attr(rb.value.func) == b and [norm(a) for a in rb.value.args] == ["self"]:
-                rs.ok({"method": dn, "bv": b})
-            else:
-                ctx.finding(rs, "%s.%s|bv" % (FNODE, dn), "%s on bit-vectors is not %s(self)" % (dn, b), method_loc(repo, FNODE, f))
-            rn = seen.get(False)
-            if dn == "__invert__":
-                if rn is not None and _mgr_attr(rn.value.func) == nb and [norm(a) for a in rn.value.args] == ["self"]:
-                    rs.ok({"method": dn, "non_bv": nb})
-                else:
-                    ctx.finding(rs, "%s.%s|nonbv" % (FNODE, dn), "~x on Booleans is not Not(self)", method_loc(repo, FNODE, f))
-            else:
-                if rn is not None and norm(rn.value) == "self._apply_infix(-1, _mgr().Times)":
-                    rs.ok({"method": dn, "non_bv": "Times(self, -1)"})
-                else:
-                    ctx.finding(rs, "%s.%s|nonbv" % (FNODE, dn), "-x on numbers is %s, expected self * -1"
-                                % (norm(rn.value) if rn is not None else None), method_loc(repo, FNODE, f))
-        # __rsub__: left - self
-        f = ci.own_func("__rsub__")
-        if f is not None:
-            txt = norm(f)
-            bv_ok = "left._apply_infix(self, _mgr().BVSub)" in txt
-            nb_ok = "minus_self = -self" in txt and "minus_self._apply_infix(left, _mgr().Plus)" in txt
-            if bv_ok and nb_ok:
-                rs.ok({"method": "__rsub__", "bv": "BVSub(left, self)", "non_bv": "Plus(-self, left)"})
-            else:
-                ctx.finding(rs, "%s.__rsub__|table" % FNODE,
-                            "reflected subtraction is not (left - self): bv_ok=%s non_bv_ok=%s" % (bv_ok, nb_ok),
-                            method_loc(repo, FNODE, f))
-        # __getitem__: slice [start:stop] -> BVExtract(self, start=start, end=stop)
-        f = ci.own_func("__getitem__")
-        if f is not None:
-            calls = [c for c in calls_in(f) if _mgr_attr(c.func) == "BVExtract"]
-            if calls and [norm(a) for a in calls[0].args] == ["self"] and \
-                    sorted((k.arg, norm(k.value)) for k in calls[0].keywords) == [("end", "end"), ("start", "start")]:
-                txt = norm(f)
-                if "end = idx.stop" in txt and "start = idx.start" in txt:
-                    rs.ok({"method": "__getitem__", "call": norm(calls[0])})
-                else:
-                    ctx.finding(rs, "%s.__getitem__|bounds" % FNODE, "slice bounds are not (start=idx.start, end=idx.stop)",
-                                method_loc(repo, FNODE, f))
-            else:
-                rs.unrec("__getitem__ shape")
-        ctx.floor(rs, 50)
 
     from . import c06_deep
     c06_deep.run(ctx)
